@@ -1,1 +1,2 @@
 import ZeepProofs.C13
+import ZeepProofs.C15
